@@ -120,6 +120,37 @@ theorem data_line_fields (lead w1 w2 w3 w4 w5 w6 trail t1 t2 t3 t4 t5 t6 t7 : St
   exact classify_of_parseData (parseData_seven lead w1 w2 w3 w4 w5 w6 trail t1 t2 t3 t4 t5 t6 t7 a b x y z r p
     hl ht h1.1 h1.2 h2.1 h2.2 h3.1 h3.2 h4.1 h4.2 h5.1 h5.2 h6.1 h6.2 e1 e2 e3 e4 e5 e6 e7)
 
+/-- **Fields beyond the requested columns only cause a warning** — whatever their float spelling: a data row followed
+by blank-separated fields made of the trailing characters (digits, signs, `.`, `,`, and `e` / `E`, so also
+`1e-05` or `2.5E+3`) is a data row with the seven values, flagged "some fields are ignored". -/
+theorem trailing_fields_only_warn (lead w1 w2 w3 w4 w5 w6 t1 t2 t3 t4 t5 t6 t7 wt f rest : Str)
+    (a b : Nat) (x y z r : Sci) (p : Int) (tl : Bool)
+    (hl : AllWs lead)
+    (h1 : Sep w1) (h2 : Sep w2) (h3 : Sep w3) (h4 : Sep w4) (h5 : Sep w5) (h6 : Sep w6)
+    (e1 : intTok t1 = some (a, [])) (e2 : intTok t2 = some (b, []))
+    (e3 : floatPrefix t3 = some (x, [])) (e4 : floatPrefix t4 = some (y, []))
+    (e5 : floatPrefix t5 = some (z, [])) (e6 : floatPrefix t6 = some (r, []))
+    (e7 : pidTok t7 = some (p, []))
+    (hwt : Sep wt) (hf : f ≠ [] ∧ ∀ c ∈ f, isTailTok c = true) (hr : tailFields rest = some tl) :
+    classify 0 (lead ++ t1 ++ w1 ++ t2 ++ w2 ++ t3 ++ w3 ++ t4 ++ w4 ++ t5 ++ w5 ++ t6 ++ w6 ++ t7 ++ (wt ++ f ++ rest))
+      = .data ⟨a, b, x, y, z, r, p, []⟩ true := by
+  simp only [List.append_assoc]
+  have ht := tailFields_fields wt f rest hwt.1 hwt.2 hf.1 hf.2 tl hr
+  simp only [List.append_assoc] at ht
+  exact classify_of_parseData (parseData_seven_tail lead w1 w2 w3 w4 w5 w6 _ t1 t2 t3 t4 t5 t6 t7 a b x y z r p true
+    hl ht h1.1 h1.2 h2.1 h2.2 h3.1 h3.2 h4.1 h4.2 h5.1 h5.2 h6.1 h6.2 e1 e2 e3 e4 e5 e6 e7)
+
+/-- the exponent spellings are trailing characters (the defect D25: they were not) -/
+theorem exponent_is_trailing_char : isTailTok 'e' = true ∧ isTailTok 'E' = true ∧ isTailTok '+' = true ∧ isTailTok '-' = true ∧
+    isTailTok '.' = true ∧ (∀ c, isDig c = true → isTailTok c = true) := by
+  refine ⟨by decide, by decide, by decide, by decide, by decide, ?_⟩
+  intro c hc; simp [isTailTok, hc]
+
+/-- … and a trailing part glued to the last requested column (`2e5`, `1.5` as the parent id) is NOT read as a shorter
+number plus ignored fields: what follows the parent id must start with a blank -/
+theorem glued_suffix_not_a_tail (c : Char) (cs : Str) (hc : isWs c = false) : tailFields (c :: cs) = none :=
+  tailFields_none_of_head hc
+
 /-- positional notation: the value of a digit string with more digits appended -/
 theorem natOf_append (a b : Str) : natOf (a ++ b) = natOf a * 10 ^ b.length + natOf b := by
   exact SwcText.natOf_append a b
